@@ -202,12 +202,12 @@ Proof.
     repeat (apply andb_true_iff in Hf; let H := fresh "Hf" in destruct Hf as [Hf H]).
     cbn [tr_stat d_stat].
     pose proof (IH1 ltac:(assumption) None flv g) as A1. destruct (tr_exp e1 None flv g) as [a1 g1].
-    pose proof (IH3 ltac:(assumption) None flv g1) as A3. destruct (tr_exp e3 None flv g1) as [a3 g2].
-    pose proof (IH2 ltac:(assumption) None flv g2) as A2. destruct (tr_exp e2 None flv g2) as [a2 g3].
+    pose proof (IH2 ltac:(assumption) None flv g1) as A2. destruct (tr_exp e2 None flv g1) as [a2 g2].
+    pose proof (IH3 ltac:(assumption) None flv g2) as A3. destruct (tr_exp e3 None flv g2) as [a3 g3].
     pose proof (IHb ltac:(assumption) flv (slv + 1) g3) as A4. destruct (tr_block b flv (slv + 1) g3) as [a4 g4].
     cbn [fst] in *.
-    replace (APush :: a1 ++ a3 ++ a2 ++ AAdd (param_var n vl) :: a4 ++ [APop])
-      with (APush :: (a1 ++ a3 ++ a2 ++ [AAdd (param_var n vl)] ++ a4) ++ [APop])
+    replace (APush :: a1 ++ a2 ++ a3 ++ AAdd (param_var n vl) :: a4 ++ [APop])
+      with (APush :: (a1 ++ a2 ++ a3 ++ [AAdd (param_var n vl)] ++ a4) ++ [APop])
       by (rewrite <- !app_assoc; reflexivity).
     apply AddsOK_scope.
     change (mkDecl n vl DLoop false None false :: d_block b) with ([mkDecl n vl DLoop false None false] ++ d_block b).
